@@ -60,3 +60,182 @@ Proof.
     + exists WTailCut. split; [reflexivity|]. cbn [window_of]. unfold lf_index_pos. rewrite E. reflexivity.
     + exists WTail. split; reflexivity.
 Qed.
+
+(* ---------- Channel.SendInputB (C01, C05, C06, C12) ----------
+
+   The translated function (its goroutine body inline as a one-iteration loop, a bare return in it
+   ending the goroutine) is run for every combination of its option tests and for a failure of
+   either read (deadline or loss); the primitives it invokes and what it returns are the model's
+   Channel.send_input's, for every configuration, input, options and sequence of read outcomes. *)
+From Coq Require Import Lia.
+Open Scope nat_scope.
+Open Scope list_scope.
+
+Inductive sact := SWrite | SEcho (exact : bool) | SReturn | SPrompt (interim : bool) | SResult.
+Inductive outcome := SoOk | SoTimeout | SoErr | SoBad.
+
+(* fail = Some (k, deadline): the k-th read (0 = echo read, 1 = prompt read) fails *)
+Definition sin_env (ex eg ie : bool) (fail : option (nat * bool)) : denv :=
+  let failing (st : store) (k : nat) (calls : list string) : bool :=
+    match fail, st with
+    | Some (k', _), ("!call", c) :: _ => Nat.eqb k k' && existsb (String.eqb c) calls
+    | _, _ => false
+    end in
+  mkEnvX (fun _ => false)
+         (fun a b => String.eqb a "len(op.InterimPromptPatterns)" && String.eqb b "0" && ie)
+         (fun _ => "")
+         (fun a => if String.eqb a "op.ExactMatchInput" then Some ex
+                   else if String.eqb a "op.Eager" then Some eg
+                   else if String.eqb a "errors.Is(r.err, context.DeadlineExceeded)"
+                        then Some (match fail with Some (_, dl) => dl | None => false end)
+                   else None)
+         (fun st a b =>
+            if String.eqb b "nil" then
+              if String.eqb a "err" then Some (Some (negb (failing st 0 ["readUntilF(ctx, input)"])))
+              else if String.eqb a "readErr"
+                   then Some (Some (negb (failing st 1 ["c.ReadUntilPrompt(ctx)"; "c.ReadUntilAnyPrompt(ctx, prompts)"])))
+              else if String.eqb a "r.err"
+                   then Some (Some (negb (existsb (fun kv => String.eqb (fst kv) "!call"
+                                                            && (String.eqb (snd kv) "cr <- &result{b: b, err: err}"
+                                                                || String.eqb (snd kv) "cr <- &result{b: b, err: readErr}")) st)))
+              else None
+            else None)
+         (fun x => if String.eqb x "once" then 1 else O)
+         (fun _ _ => None).
+
+Definition sin_acts (st : store) : option (list sact) :=
+  let exact := match sget st "readUntilF" with
+               | Some "c.ReadUntilExplicit" => Some true
+               | Some "c.ReadUntilFuzzy" => Some false
+               | _ => None
+               end in
+  let interim_built :=
+    existsb (fun kv => String.eqb (fst kv) "prompts" && String.eqb (snd kv) "[]*regexp.Regexp{c.PromptPattern}") st
+    && match sget st "prompts" with Some "append(prompts, op.InterimPromptPatterns...)" => true | _ => false end in
+  fold_left
+    (fun acc kv =>
+       match acc with
+       | None => None
+       | Some l =>
+           let k := fst kv in let v := snd kv in
+           if String.eqb k "err" && String.eqb v "c.Write(input, false)" then Some (l ++ [SWrite])
+           else if String.eqb k "err" && String.eqb v "c.WriteReturn()" then Some (l ++ [SReturn])
+           else if String.eqb k "!call" && String.eqb v "readUntilF(ctx, input)"
+                then match exact with Some e => Some (l ++ [SEcho e]) | None => None end
+           else if String.eqb k "!call" && String.eqb v "c.ReadUntilPrompt(ctx)" then Some (l ++ [SPrompt false])
+           else if String.eqb k "!call" && String.eqb v "c.ReadUntilAnyPrompt(ctx, prompts)"
+                then (if interim_built then Some (l ++ [SPrompt true]) else None)
+           else if String.eqb k "!call" && String.eqb v "cr <- &result{ b: c.processOut(b, op.StripPrompt), err: nil, }"
+                then Some (l ++ [SResult])
+           else Some l
+       end)
+    (rev st) (Some []).
+
+Definition sin_run (ex eg ie : bool) (fail : option (nat * bool)) : option (list sact * outcome) :=
+  match DecideLang.exec 40 (sin_env ex eg ie fail) send_input_code [] with
+  | Returned st v =>
+      match sin_acts st with
+      | Some l =>
+          Some (l, if String.eqb v "r.b, nil" then SoOk
+                   else if String.eqb v "nil, fmt.Errorf( ""%w: channel timeout sending input to device"", util.ErrTimeoutError, )" then SoTimeout
+                   else if String.eqb v "nil, r.err" then SoErr else SoBad)
+      | None => None
+      end
+  | _ => None
+  end.
+
+Definition sin_expected (ex eg ie : bool) (fail : option (nat * bool)) : list sact * outcome :=
+  let cls (dl : bool) := if dl then SoTimeout else SoErr in
+  match fail with
+  | Some (0, dl) => ([SWrite; SEcho ex], cls dl)
+  | Some (1, dl) => if eg then ([SWrite; SEcho ex; SReturn; SResult], SoOk)
+                    else ([SWrite; SEcho ex; SReturn; SPrompt (negb ie)], cls dl)
+  | _ => ([SWrite; SEcho ex; SReturn] ++ (if eg then [] else [SPrompt (negb ie)]) ++ [SResult], SoOk)
+  end.
+
+Definition sin_table_ok : bool :=
+  forallb (fun ex => forallb (fun eg => forallb (fun ie => forallb (fun fail =>
+     match sin_run ex eg ie fail with
+     | Some (l, o) =>
+         let '(l', o') := sin_expected ex eg ie fail in
+         Nat.eqb (List.length l) (List.length l')
+         && forallb (fun p => match fst p, snd p with
+                              | SWrite, SWrite | SReturn, SReturn | SResult, SResult => true
+                              | SEcho a, SEcho b | SPrompt a, SPrompt b => Bool.eqb a b
+                              | _, _ => false
+                              end) (combine l l')
+         && match o, o' with SoOk, SoOk | SoTimeout, SoTimeout | SoErr, SoErr => true | _, _ => false end
+     | None => false
+     end)
+     [None; Some (0, true); Some (0, false); Some (1, true); Some (1, false); Some (2, true)])
+     [true; false]) [true; false]) [true; false].
+
+(* ---- model side ---- *)
+From Scrapli Require Import InteractiveSrcDefs.
+
+Inductive rd := ROk (b : bytes) | RDeadline | RLost.
+
+(* the primitives a program invokes, and how it ends, when its reads have the outcomes [rds]
+   (a deadline reaches the read's handler as ETimeout, a loss as EConnection) *)
+Fixpoint mrun (p : prog bytes) (rds : list rd) {struct p} : list pact * outcome :=
+  match p with
+  | Ret _ => ([], SoOk)
+  | Fail ETimeout => ([], SoTimeout)
+  | Fail _ => ([], SoErr)
+  | Write b red k => let '(l, o) := mrun k rds in (PW b red :: l, o)
+  | Until c k h =>
+      let '(l, o) := match rds with
+                     | ROk b :: rs => mrun (k b) rs
+                     | RDeadline :: _ => mrun (h ETimeout) []
+                     | RLost :: _ => mrun (h EConnection) []
+                     | [] => mrun (k []) []
+                     end in (PU c :: l, o)
+  | Note _ _ k => let '(l, o) := mrun k rds in (PNote :: l, o)
+  | Requeue _ k => let '(l, o) := mrun k rds in (PRequeue :: l, o)
+  end.
+
+Definition is_nil {A} (l : list A) : bool := match l with [] => true | _ => false end.
+
+(* the model skips the echo read for an empty input matched fuzzily (ReadUntilFuzzy returns at once) *)
+Definition echo_skipped (o : op_opts) (input : bytes) : bool := is_nil input && negb (o_exact o).
+
+(* which of the source's two reads fails, given the outcomes of the model's reads *)
+Definition fail_src (o : op_opts) (input : bytes) (rds : list rd) : option (nat * bool) :=
+  if echo_skipped o input then
+    match rds with RDeadline :: _ => Some (1, true) | RLost :: _ => Some (1, false) | _ => None end
+  else
+    match rds with
+    | RDeadline :: _ => Some (0, true) | RLost :: _ => Some (0, false)
+    | ROk _ :: RDeadline :: _ => Some (1, true) | ROk _ :: RLost :: _ => Some (1, false)
+    | _ => None
+    end.
+
+Definition sact_pacts (cfg : chan_cfg) (input : bytes) (o : op_opts) (a : sact) : list pact :=
+  match a with
+  | SWrite => [PW input false]
+  | SEcho _ => if echo_skipped o input then [] else [PU (echo_cond o input)]
+  | SReturn => [PW (c_ret cfg) false]
+  | SPrompt _ => [PU (match o_interim o with [] => CPrompt | ps => CAnyPrompt (c_prompt cfg :: ps) end)]
+  | SResult => []
+  end.
+
+Theorem send_input_model : forall cfg input o rds,
+  mrun (send_input cfg input o) rds
+  = (flat_map (sact_pacts cfg input o) (fst (sin_expected (o_exact o) (o_eager o) (is_nil (o_interim o)) (fail_src o input rds))),
+     snd (sin_expected (o_exact o) (o_eager o) (is_nil (o_interim o)) (fail_src o input rds))).
+Proof.
+  intros cfg input [strip eager exact interim complete] rds.
+  unfold send_input, until_echo, fail_src, echo_skipped, sin_expected, sact_pacts, echo_skipped, echo_cond.
+  cbn [o_exact o_eager o_interim o_strip o_complete].
+  destruct input as [|c0 inp], exact, eager, interim as [|p0 ps];
+    destruct rds as [|[b1| |] [|[b2| |] rs]]; reflexivity.
+Qed.
+
+(* THE TIE *)
+Theorem send_input_is_source :
+  sin_table_ok = true
+  /\ forall cfg input o rds,
+       mrun (send_input cfg input o) rds
+       = (flat_map (sact_pacts cfg input o) (fst (sin_expected (o_exact o) (o_eager o) (is_nil (o_interim o)) (fail_src o input rds))),
+          snd (sin_expected (o_exact o) (o_eager o) (is_nil (o_interim o)) (fail_src o input rds))).
+Proof. split; [vm_compute; reflexivity | exact send_input_model]. Qed.
